@@ -5,6 +5,7 @@ import Librfn.Lemmas.ConsoleTable
 import Librfn.Lemmas.ConsoleInv
 import Librfn.Lemmas.ConsoleEdit
 import Librfn.Lemmas.ConsoleRound
+import Librfn.Lemmas.ConsoleSplit
 import Librfn.Lemmas.ConsoleDeliver
 /-!
 # C15 — console line editing, tokenising and dispatch are exact and memory-safe
@@ -459,8 +460,9 @@ theorem d11_old_tokenizer_mangles_nested_quote :
   decide
 
 open Librfn.Spec.Console in
-/-- the blank-separated words of a line without quote characters whose first character is not a
-    blank are its tokens — the first three, and from the fourth word on the raw rest (O1) -/
+/-- the blank-separated words of a non-empty line without quote characters whose first character is
+    not a blank are its tokens: the first three exactly (from the fourth word on `argv[3]` is the raw
+    rest, see `fourth_takes_rest`), and `argc` is their number, capped at four -/
 def UnquotedSimpleSplit : Prop :=
   ∀ (line tail : List Nat) (argv0 : List (Option Nat)),
     line ≠ [] → (∀ b ∈ line, (printable b ∧ ¬ isQuote b) ∨ blank b) → (∀ b, line.head? = some b → ¬ blank b) →
@@ -468,69 +470,135 @@ def UnquotedSimpleSplit : Prop :=
     (tokensOf (tokenizeMem (line ++ 0 :: tail) argv0 line.length) line.length).take 3 = (splitBlanks line).take 3 ∧
     (tokenizeMem (line ++ 0 :: tail) argv0 line.length).argc = min 4 (splitBlanks line).length
 
-open Librfn.Spec.Console in
-/-- the statement is satisfiable on a line outside the proved part: `ab  c d e f ` (five words, a
-    trailing blank) -/
-example : (tokensOf (tokenizeMem ([97, 98, 32, 32, 99, 32, 100, 32, 101, 32, 102, 32] ++ 0 :: [7]) [none, none, none, none] 12) 12).take 3
-      = (splitBlanks [97, 98, 32, 32, 99, 32, 100, 32, 101, 32, 102, 32]).take 3 ∧
-    (tokenizeMem ([97, 98, 32, 32, 99, 32, 100, 32, 101, 32, 102, 32] ++ 0 :: [7]) [none, none, none, none] 12).argc
-      = min 4 (splitBlanks [97, 98, 32, 32, 99, 32, 100, 32, 101, 32, 102, 32]).length := by decide
+theorem tokensOf_length (t : Tok) (len : Nat) : (tokensOf t len).length = t.argc := by simp [tokensOf]
 
-open Librfn.Spec.Console in
-/-- **unquoted_simple_split_partial**: a line made of at most four words separated by blanks (no
-    quote characters, no trailing blanks) is split into exactly those words.  (Lines with trailing
-    blanks or more than four words: `fourth_takes_rest` + the correspondence run; the general
-    statement `UnquotedSimpleSplit` is not proved.) -/
-theorem unquoted_simple_split_partial (cmd : List Nat) (more : List (List Nat × List Nat)) (tail : List Nat)
-    (argv0 : List (Option Nat)) (hcmd : Word cmd) (hmore : ∀ a ∈ more, Blanks a.1 ∧ Word a.2) (hn : more.length ≤ 3)
-    (ha : argv0.length = 4) :
-    let line := cmd ++ (more.map fun a => a.1 ++ a.2).flatten
-    tokensOf (tokenizeMem (line ++ 0 :: tail) argv0 line.length) line.length = cmd :: more.map (·.2) := by
-  -- the first two extra words are items, a third one is the final word
-  have key : ∀ (args : List (List Nat × Item)) (final : Option (List Nat × List Nat)),
-      render cmd args final = cmd ++ (more.map fun a => a.1 ++ a.2).flatten →
-      texts cmd args final = cmd :: more.map (·.2) →
-      (∀ a ∈ args, Blanks a.1 ∧ a.2.Ok) → args.length ≤ 2 →
-      (∀ f, final = some f → Blanks f.1 ∧ Word f.2) →
-      tokensOf (tokenizeMem (cmd ++ (more.map fun a => a.1 ++ a.2).flatten ++ 0 :: tail) argv0
-        (cmd ++ (more.map fun a => a.1 ++ a.2).flatten).length) (cmd ++ (more.map fun a => a.1 ++ a.2).flatten).length
-        = cmd :: more.map (·.2) := by
-    intro args final h1 h2 h3 h4 h5
-    have := tokenize_roundtrip cmd args final tail argv0 hcmd h3 h4 h5 ha
-    rw [h1, h2] at this
-    exact this
-  match more, hmore, hn with
-  | [], _, _ => exact key [] none (by simp [render, renderArgs]) (by simp [texts]) (by intro a ha'; cases ha') (by simp) (by intro f hf; cases hf)
-  | [a], hm, _ =>
-    exact key [(a.1, .word a.2)] none (by simp [render, renderArgs, Item.render]) (by simp [texts, Item.text])
-      (by
-        intro x hx; simp only [List.mem_singleton] at hx; subst hx
-        exact ⟨(hm a (List.mem_cons_self ..)).1, (hm a (List.mem_cons_self ..)).2⟩)
-      (by simp) (by intro f hf; cases hf)
-  | [a, b], hm, _ =>
-    exact key [(a.1, .word a.2), (b.1, .word b.2)] none (by simp [render, renderArgs, Item.render]) (by simp [texts, Item.text])
-      (by
-        intro x hx
-        simp only [List.mem_cons, List.mem_nil_iff, or_false] at hx
-        rcases hx with rfl | rfl
-        · exact ⟨(hm a (by simp)).1, (hm a (by simp)).2⟩
-        · exact ⟨(hm b (by simp)).1, (hm b (by simp)).2⟩)
-      (by simp) (by intro f hf; cases hf)
-  | [a, b, c], hm, _ =>
-    exact key [(a.1, .word a.2), (b.1, .word b.2)] (some (c.1, c.2)) (by simp [render, renderArgs, Item.render]) (by simp [texts, Item.text])
-      (by
-        intro x hx
-        simp only [List.mem_cons, List.mem_nil_iff, or_false] at hx
-        rcases hx with rfl | rfl
-        · exact ⟨(hm a (by simp)).1, (hm a (by simp)).2⟩
-        · exact ⟨(hm b (by simp)).1, (hm b (by simp)).2⟩)
-      (by simp)
-      (by
-        intro f hf
-        injection hf with hf
-        subst hf
-        exact hm c (by simp))
-  | _ :: _ :: _ :: _ :: _, _, h => simp at h
+open Librfn.Lemmas.ConsoleScan Librfn.Lemmas.ConsoleSplit in
+/-- from the fold's token facts to the strings the command sees -/
+theorem tokens_assemble (c0 : Nat) (rest tail : List Nat) (argv0 : List (Option Nat)) (E : List (List Nat))
+    (h : Tok3 (scan (sc0 c0 argv0) rest) E) (hA : (scan (sc0 c0 argv0) rest).argc ≤ 4) :
+    (tokensOf (tokenizeMem (c0 :: rest ++ 0 :: tail) argv0 (rest.length + 1)) (rest.length + 1)).take E.length = E := by
+  obtain ⟨m1, m2, m3⟩ := tokenizeMem_scan c0 rest tail argv0
+  apply List.ext_getElem?
+  intro i
+  by_cases hi : i < E.length
+  · have hia : i < (scan (sc0 c0 argv0) rest).argc := Nat.lt_of_lt_of_le hi h.elen
+    obtain ⟨p, q1, q2⟩ := h.tok i _ (List.getElem?_eq_getElem hi)
+    rw [List.getElem?_take_of_lt hi]
+    unfold tokensOf
+    rw [List.getElem?_map, List.getElem?_range (by rw [m2]; exact hia)]
+    simp only [Option.map_some]
+    rw [padArgv_getD _ _ _ i (by omega), m2, if_pos hia, m3, q1]
+    simp only []
+    rw [m1, q2 tail, List.getElem?_eq_getElem hi]
+  · rw [List.getElem?_eq_none (by rw [List.length_take]; omega), List.getElem?_eq_none (by omega)]
+
+open Librfn.Spec.Console Librfn.Lemmas.ConsoleScan Librfn.Lemmas.ConsoleSplit in
+/-- **unquoted_simple_split**, in general: any number of words, any separators, trailing blanks -/
+theorem unquoted_simple_split : UnquotedSimpleSplit := by
+  intro line tail argv0 hne hall hhead ha
+  cases line with
+  | nil => exact absurd rfl hne
+  | cons c0 rest0 =>
+    have hc0b : ¬ blank c0 := hhead c0 rfl
+    -- the command word and what follows it
+    have e1 := spanP_eq nonBlankB rest0
+    have f1 := spanP_fst nonBlankB rest0
+    have hsub1 : ∀ x ∈ (spanP nonBlankB rest0).1, WB x := fun x hx =>
+      hall x (List.mem_cons_of_mem _ (by rw [← e1]; exact List.mem_append_left _ hx))
+    have hsub2 : ∀ x ∈ (spanP nonBlankB rest0).2, WB x := fun x hx =>
+      hall x (List.mem_cons_of_mem _ (by rw [← e1]; exact List.mem_append_right _ hx))
+    have hword : Word (c0 :: (spanP nonBlankB rest0).1) := by
+      apply word_of_nonblank _ (by simp)
+      · intro b hb
+        rcases List.mem_cons.mp hb with rfl | hb
+        · exact hall _ (List.mem_cons_self ..)
+        · exact hsub1 b hb
+      · intro b hb
+        rcases List.mem_cons.mp hb with rfl | hb
+        · unfold nonBlankB isBlankB; simp [hc0b]
+        · exact f1 b hb
+    obtain ⟨pairs, trail, p1, p2, p3⟩ := exists_decomp _ (spanP nonBlankB rest0).2 (Nat.le_refl _) hsub2 (by
+      rcases spanP_snd nonBlankB rest0 with h | ⟨c', t'', h, hc'⟩
+      · exact Or.inl h
+      · refine Or.inr ⟨c', t'', h, ?_⟩
+        unfold nonBlankB at hc'
+        exact blank_of_isBlankB c' (by simpa using hc'))
+    have hflat : flat pairs = flat (pairs.take 2) ++ flat (pairs.drop 2) := by
+      rw [← flat_append, List.take_append_drop]
+    have hrest : rest0 = (spanP nonBlankB rest0).1 ++ (flat (pairs.take 2) ++ (flat (pairs.drop 2) ++ trail)) := by
+      conv => lhs; rw [← e1, p1, hflat]
+      simp
+    -- the specification side
+    have hspec : splitBlanks (c0 :: rest0) = (c0 :: (spanP nonBlankB rest0).1) :: pairs.map (·.2) := by
+      unfold splitBlanks
+      have hl : c0 :: rest0 = (c0 :: (spanP nonBlankB rest0).1) ++ (flat pairs ++ trail) := by
+        conv => lhs; rw [← e1, p1]
+        simp
+      rw [hl, splitGo_word _ [] _ (word_nonblank _ hword), List.nil_append]
+      exact splitGo_blocks pairs _ trail (by simp) p2 p3
+    -- the tokeniser side
+    have hpre : ∀ a ∈ pairs.take 2, Blanks a.1 ∧ Word a.2 := fun a ha' => p2 a (List.mem_of_mem_take ha')
+    have hpost : ∀ a ∈ pairs.drop 2, Blanks a.1 ∧ Word a.2 := fun a ha' => p2 a (List.mem_of_mem_drop ha')
+    have hprelen : (pairs.take 2).length ≤ 2 := by rw [List.length_take]; omega
+    obtain ⟨t1, t2, t3, t4⟩ := tok3_of_args c0 (spanP nonBlankB rest0).1 argv0 (pairs.take 2) hword hpre hprelen ha
+    have h3 : pairs.drop 2 ≠ [] → (scan (scan (sc0 c0 argv0) (spanP nonBlankB rest0).1) (flat (pairs.take 2))).argc = 3 := by
+      intro hd
+      have : 2 < pairs.length := by
+        rcases Nat.lt_or_ge 2 pairs.length with h | h
+        · exact h
+        · exact absurd (List.drop_eq_nil_of_le h) hd
+      rw [t2, List.length_take]; omega
+    obtain ⟨u1, u2⟩ := tok3_final _ _ (pairs.drop 2) trail t1 t3 t4 hpost p3 h3
+    have hscan : scan (sc0 c0 argv0) rest0 = scan (scan (scan (sc0 c0 argv0) (spanP nonBlankB rest0).1) (flat (pairs.take 2)))
+        (flat (pairs.drop 2) ++ trail) := by
+      conv => lhs; rw [hrest]
+      rw [scan_append, scan_append]
+    rw [← hscan] at u1 u2
+    have hargc_le : (scan (sc0 c0 argv0) rest0).argc ≤ 4 := by
+      rw [u2]; split
+      · rw [t2]; omega
+      · exact Nat.le_refl _
+    have hasm := tokens_assemble c0 rest0 tail argv0 _ u1 hargc_le
+    obtain ⟨_, m2, _⟩ := tokenizeMem_scan c0 rest0 tail argv0
+    have hlen : (c0 :: rest0).length = rest0.length + 1 := rfl
+    rw [hlen, hspec]
+    have hmem : c0 :: rest0 ++ 0 :: tail = c0 :: rest0 ++ 0 :: tail := rfl
+    have hE : ((c0 :: (spanP nonBlankB rest0).1) :: pairs.map (·.2)).take 3 =
+        (c0 :: (spanP nonBlankB rest0).1) :: (pairs.take 2).map (·.2) := by
+      rw [List.take_succ_cons, List.map_take]
+    have hElen : ((c0 :: (spanP nonBlankB rest0).1) :: (pairs.take 2).map (·.2)).length = 1 + (pairs.take 2).length := by
+      simp; omega
+    rw [hElen] at hasm
+    refine ⟨?_, ?_⟩
+    · rw [hE, ← hasm]
+      by_cases hd : pairs.drop 2 = []
+      · -- fewer than four words: the token list has exactly that many entries
+        have hA : (tokenizeMem (c0 :: rest0 ++ 0 :: tail) argv0 (rest0.length + 1)).argc = 1 + (pairs.take 2).length := by
+          rw [m2, u2, if_pos hd, t2]
+        rw [List.take_of_length_le (by rw [tokensOf_length, hA]; omega),
+          List.take_of_length_le (by rw [tokensOf_length, hA]; omega)]
+      · have : 2 < pairs.length := by
+          rcases Nat.lt_or_ge 2 pairs.length with h | h
+          · exact h
+          · exact absurd (List.drop_eq_nil_of_le h) hd
+        have : (pairs.take 2).length = 2 := by rw [List.length_take]; omega
+        rw [this]
+    · rw [m2, u2]
+      simp only [List.length_cons, List.length_map]
+      by_cases hd : pairs.drop 2 = []
+      · rw [if_pos hd, t2]
+        have : pairs.length ≤ 2 := by
+          rcases Nat.lt_or_ge 2 pairs.length with h | h
+          · have : (pairs.drop 2).length = pairs.length - 2 := List.length_drop
+            rw [hd] at this; simp at this; omega
+          · exact h
+        rw [List.length_take]; omega
+      · rw [if_neg hd]
+        have : 2 < pairs.length := by
+          rcases Nat.lt_or_ge 2 pairs.length with h | h
+          · exact h
+          · exact absurd (List.drop_eq_nil_of_le h) hd
+        omega
 
 /-- non-vacuity of the round trip: `set  "a b"	'x"y' z` -/
 example : tokensOf (tokenizeMem ([115, 101, 116, 32, 32, 34, 97, 32, 98, 34, 9, 39, 120, 34, 121, 39, 32, 122, 0, 7, 7]) [none, none, none, none] 18) 18
